@@ -278,6 +278,24 @@ func GenC13(t *rapid.T, thorough bool) History {
 			userStake[nv+u] += amt
 		}
 	}
+	// one case in three: a user whose stake is split over two validators, one part small (smaller than its share of
+	// most fees, so that a fee paid from stake has to go on to the second validator); it becomes a reporter and is the
+	// preferred payer from stake
+	split := -1
+	if uni(t, "splitStaker", 3) == 0 {
+		split = nv // actor index of user 0
+		var ud [][3]int64
+		for _, d := range cfg.UserDelegs {
+			if d[0] != 0 {
+				ud = append(ud, d)
+			}
+		}
+		v1 := uni(t, "splitV1", nv)
+		v2 := (v1 + 1 + uni(t, "splitV2", nv-1)) % nv
+		small := pick(t, "splitSmall", []int64{1_000_000, 1_500_000, 1_000_003, 250_000})
+		cfg.UserDelegs = append(ud, [3]int64{0, int64(v1), small}, [3]int64{0, int64(v2), 30_000_000})
+		userStake[split] = small + 30_000_000
+	}
 	s.h.Genesis = cfg
 	nActors := nv + nu
 	stakeOf := func(a int) int64 {
@@ -303,6 +321,15 @@ func GenC13(t *rapid.T, thorough bool) History {
 	nur := pick(t, "userReporters", []int{0, 1, 1, 2})
 	for i := 0; i < nur && i < len(staked); i++ {
 		reporters = append(reporters, staked[i])
+	}
+	if split >= 0 {
+		have := false
+		for _, r := range reporters {
+			have = have || r == split
+		}
+		if !have {
+			reporters = append(reporters, split)
+		}
 	}
 	sort.Ints(reporters)
 	isRep := map[int]bool{}
@@ -414,6 +441,9 @@ func GenC13(t *rapid.T, thorough bool) History {
 	}
 	canBond := func(a int) bool { return isRep[a] && a != disputed && repTotal[a] >= 2*fullFee }
 	pickPayer := func(prev []int) int {
+		if split >= 0 && split != disputed && uni(t, "splitPays", 2) == 0 {
+			return split
+		}
 		if len(prev) > 0 && uni(t, "repeatPayer", 5) < 2 {
 			return prev[uni(t, "whichPrev", len(prev))]
 		}
@@ -423,6 +453,9 @@ func GenC13(t *rapid.T, thorough bool) History {
 		return uni(t, "payer", nActors)
 	}
 	bondRef := func(a int, propose bool) int {
+		if a == split && canBond(a) && uni(t, "splitFromBond", 4) != 0 {
+			return 3
+		}
 		if canBond(a) && uni(t, "fromBond", 2) == 0 {
 			return 3
 		}
